@@ -74,6 +74,15 @@ def cases(thorough):
                 if not thorough and d == "f4" and seq[0].startswith("mut"):
                     continue
                 yield {"block": "SEQ", "u1": u1, "u2": u2, "d1": d, "steps": list(seq)}
+    # ... and in-place updates that numpy itself refuses after the units have been worked out (an operand of another length, a float result
+    # for integer data): the refused operand is what it was, and what follows is computed from it
+    for (u1, u2) in [("m", "cm"), ("g", "M_sun"), ("km/s", "cm/s")]:
+        for d in ("f8", "i8"):
+            for r in ("mut_b_refused_shape_imul", "mut_a_refused_shape_idiv", "mut_b_refused_int_idiv", "mut_a_refused_sqrt_out"):
+                if r == "mut_b_refused_int_idiv" and d != "i8":
+                    continue
+                for s2 in ("add", "mul", "div", "radd"):
+                    yield {"block": "SEQ", "u1": u1, "u2": u2, "d1": d, "steps": [r, s2, "sub"]}
     # block 3: unary / scalar-multiple / powers
     for op in UNARY:
         for d1 in ("f8", "f4", "i8", "i4"):
@@ -408,6 +417,28 @@ def run_sequence(acc, idx, c):
     b = osyris.Array(np.array([8.0, 16.0, 32.0], dtype=dt), unit=c["u2"])
     out = "ok"
     for k, st in enumerate(c["steps"]):
+        if st.startswith("mut") and "refused" in st:
+            tgt = b if st.startswith("mut_b") else a
+            snap = _arr.snapshot(tgt)
+            two = osyris.Array(np.array([2.0, 4.0]), unit="s")
+            try:
+                with np.errstate(all="ignore"):
+                    if st == "mut_b_refused_shape_imul":
+                        b *= two
+                    elif st == "mut_a_refused_shape_idiv":
+                        a /= two
+                    elif st == "mut_b_refused_int_idiv":
+                        b /= osyris.Array(np.array(2.0), unit="s")
+                    else:
+                        np.sqrt(a, out=osyris.Array(np.zeros(2), unit="K") if False else a[:2]) if False else np.multiply(a, two, out=a)
+                refused = False
+            except Exception:
+                refused = True
+            if refused and _arr.snapshot(tgt) != snap:
+                acc.violation("C02:operand-changed-by-a-refused-in-place-operation:" + st.split("_refused_")[1], idx, c,
+                              {"before": str(snap)[:160], "after": str(_arr.snapshot(tgt))[:160]})
+                return "violation"
+            continue
         if st.startswith("mut"):
             try:
                 with np.errstate(all="ignore"):
